@@ -81,6 +81,8 @@ type Case struct {
 	Msgs   []Msg `json:"msgs"`
 	Reads  []int `json:"reads"` // read sizes cycled by piecewise receivers
 	Salt   uint32 `json:"salt"`
+	// Over: the piecewise stream reader offers buffers that may be longer than the rest of the message
+	Over bool `json:"over,omitempty"`
 	// Ctx: 0 context.Background(), 1 a cancellable context that is never cancelled, 2 a context with a far deadline
 	Ctx int `json:"ctx,omitempty"`
 }
@@ -273,9 +275,11 @@ func runCase(c Case) result {
 			var got []byte
 			for len(got) < wantLen {
 				n := nextRead()
-				if n > wantLen-len(got) {
+				if n > wantLen-len(got) && !c.Over {
 					n = wantLen - len(got)
 				}
+				// (with Over the buffer may be longer than what is left of the message, as a reader that does not
+				// know the length in advance would offer: the read stops at the message's end all the same)
 				buf := make([]byte, n)
 				k, err := R.ReadMessageBytes(ctx, buf)
 				if err != nil {
@@ -285,6 +289,9 @@ func runCase(c Case) result {
 					return got, fmt.Errorf("ReadMessageBytes returned 0 bytes with %d outstanding", wantLen-len(got))
 				}
 				got = append(got, buf[:k]...)
+				if len(got) > wantLen {
+					return got, fmt.Errorf("ReadMessageBytes handed out %d bytes of a %d-byte message: it read past the message's end", len(got), wantLen)
+				}
 			}
 			if err := R.EndMessageRead(); err != nil {
 				return got, err
@@ -497,6 +504,7 @@ func genCase(t *rapid.T) Case {
 	c.KeyOff = c.AES && rapid.IntRange(0, 3).Draw(t, "keyoff") == 0
 	c.Dribble = rapid.SampledFrom([]int{0, 0, 0, 1, 3, 7, 4096}).Draw(t, "dribble")
 	c.Ctx = rapid.IntRange(0, 2).Draw(t, "ctx")
+	c.Over = rapid.Bool().Draw(t, "over")
 	big := rapid.IntRange(0, 3).Draw(t, "bigcase") == 0 // <=25% of cases may contain >=1MiB messages
 	n := rapid.IntRange(1, 6).Draw(t, "nmsgs")
 	if big {
@@ -561,7 +569,7 @@ func TestC01Compositions(t *testing.T) {
 			for _, aes := range []bool{false, true} {
 				for _, snd := range []int{SPartials, SWriteMessage, STypedBytes} {
 					rcv := (mask + n + snd) % nRecv
-					c := Case{AES: aes, KeyOff: aes && (mask+n)%3 == 0, Dribble: []int{0, 1, 2, 5}[(mask+n+snd)%4], Ctx: (mask + n + rcv) % 3, Prefix: (mask + n) % 4, Send: snd, Recv: rcv, Salt: uint32(n*4096 + mask),
+					c := Case{AES: aes, KeyOff: aes && (mask+n)%3 == 0, Dribble: []int{0, 1, 2, 5}[(mask+n+snd)%4], Ctx: (mask + n + rcv) % 3, Over: (mask+n)%2 == 1, Prefix: (mask + n) % 4, Send: snd, Recv: rcv, Salt: uint32(n*4096 + mask),
 						Msgs:  []Msg{{Len: n, Cuts: cuts, Flush: uint32(mask*7 + n)}, {Len: (n + 3) % 5, Cuts: nil}},
 						Reads: []int{1 + mask%3}}
 					r := runCase(c)
